@@ -192,12 +192,12 @@ impl Mode {
         // the stack pointer moves by the size of the value pushed (2 with an
         // operand-size prefix, otherwise 4 or 8)
         let size = (value.bits() / 8) as u64;
-        block.assign(
-            self.sp(),
-            Expr::sub(self.sp().into(), expr_const(size, self.bits()))?,
-        );
+        let new_sp = Expr::sub(self.sp().into(), expr_const(size, self.bits()))?;
 
-        block.store(self.sp().into(), value);
+        // the value is read before the stack pointer changes: `push rsp` stores
+        // the old stack pointer
+        block.store(new_sp.clone(), value);
+        block.assign(self.sp(), new_sp);
         Ok(())
     }
 }
